@@ -255,6 +255,16 @@ func (e *env) mint(to sdk.AccAddress, coins sdk.Coins) {
 	}
 }
 
+// govern runs a governance proposal handler the way x/gov does: on a branch written back on success.
+func (e *env) govern(f func(ctx sdk.Context) error) error {
+	cctx, commit := e.ctx.CacheContext()
+	err := f(cctx)
+	if err == nil {
+		commit()
+	}
+	return err
+}
+
 // deliver runs f the way baseapp runs a message: on a branch of the state that is written back
 // only if f returns nil; a panic aborts the transaction (nothing written).
 func (e *env) deliver(f func(ctx context.Context) error) (err error, panicked bool) {
